@@ -38,7 +38,7 @@ const B_BIGFILE: usize = 14;
 const B_ZEROS: usize = 15;
 const B_RUNS: usize = 16;
 
-pub const NCALLS: usize = 23;
+pub const NCALLS: usize = 24;
 /// call that processes a 20 MiB input: only used as the first element of two-call histories
 pub const BIG_CALL: usize = 20;
 
@@ -142,6 +142,7 @@ pub const CALL_NAMES: [&str; NCALLS] = [
     "corrections(stream, hash=ZlibNG)", "corrections(stream, hash=RandomVector)", "corrections(stream, hash=Crc32c)",
     "decompress_zstd(frame without content size)", "compress_zstd(20 MiB file)",
     "decompress(stream of 128 KiB zeros, verify=true)", "decompress(zlib-1 stream of 100 KB of runs, verify=true)",
+    "decompress_zstd(frame, capacity 16)",
 ];
 
 fn dres<T: AsRef<[u8]>>(r: Result<R<T>, PanicInfo>) -> u64 {
@@ -181,6 +182,8 @@ pub fn call(s: &dyn Subject, id: usize, inp: &Inputs) -> u64 {
         20 => dres(caught(|| s.compress_zstd(&b[B_BIGFILE]))),
         21 => dsplit(caught(|| s.decompress(&b[B_ZEROS], true))),
         22 => dsplit(caught(|| s.decompress(&b[B_RUNS], true))),
+        // a capacity far below the expanded size: Err, whatever happened before
+        23 => dres(caught(|| s.decompress_zstd(&b[B_Z], 16))),
         13..=18 => {
             let mut v: Vec<u32> = b[B_HASH0 + 1].chunks(4).map(|c| u32::from_le_bytes(c.try_into().unwrap())).collect();
             v[4] = (id - 13 + 2) as u32;
@@ -810,7 +813,7 @@ pub fn run_c14(ctx: &Ctx, st: &mut Local) {
         rec(ctx, st, s, &inp, &fresh, &mut hist, maxlen, &mut idx);
         let _ = std::fs::remove_file(&path);
         let e = st.eng(name);
-        e.bound = "23 (function, input) calls incl. the C wrappers, the corrections of one stream coded under each hash algorithm, a zstd frame without content size, two low-entropy streams of > 64 KiB of plaintext and a 20 MiB file; each as the first call of a fresh process; all call sequences of length <= 3 in one process, every result compared with the fresh-process result".into();
+        e.bound = "24 (function, input) calls incl. the C wrappers, the corrections of one stream coded under each hash algorithm, a zstd frame without content size, two low-entropy streams of > 64 KiB of plaintext and a 20 MiB file; each as the first call of a fresh process; all call sequences of length <= 3 in one process, every result compared with the fresh-process result".into();
         e.exhaustive = true;
     }
 
@@ -874,7 +877,7 @@ pub fn run_c14(ctx: &Ctx, st: &mut Local) {
         }
         let _ = std::fs::remove_file(&path);
         let e = st.eng(name);
-        e.bound = "all 22 calls (every call but the 20 MiB one) in fresh processes under MALLOC_PERTURB_ {0,0x55,0xAA} x mmap/trim threshold {default, 1 GiB} x {default, ASLR off, pinned to one CPU}".into();
+        e.bound = "all 23 calls (every call but the 20 MiB one) in fresh processes under MALLOC_PERTURB_ {0,0x55,0xAA} x mmap/trim threshold {default, 1 GiB} x {default, ASLR off, pinned to one CPU}".into();
         e.exhaustive = true;
     }
 
@@ -1046,6 +1049,42 @@ pub fn run_c14(ctx: &Ctx, st: &mut Local) {
         e.exhaustive = !capped;
     }
 
+    // (3a') smallstack: the calls on a thread with a 128 KiB stack (the library keeps its large tables on the heap; a worker
+    // pool with small stacks is an ordinary way to call it)
+    if timing { eprintln!("T{} {:.1}s before smallstack", ctx.thread, t_start.elapsed().as_secs_f64()); }
+    let name = "smallstack";
+    if ctx.engine_on(name) {
+        let mut idx = 0u64;
+        for id in 0..NCALLS {
+            if id == BIG_CALL {
+                continue;
+            }
+            let i = idx;
+            idx += 1;
+            if ctx.sel.mine(i) {
+                count(ctx, name, st, i);
+            }
+            if !ctx.take(name, i) {
+                continue;
+            }
+            st.sample(name, || format!("#{} {} on a thread with a 128 KiB stack", i, CALL_NAMES[id]));
+            ctx.begin(name, i, 120_000);
+            let inp_ref = &inp;
+            let d = std::thread::scope(|sc| {
+                std::thread::Builder::new().stack_size(std::env::var("PFV_STACK_KIB").ok().and_then(|v| v.parse::<usize>().ok()).unwrap_or(128) << 10).spawn_scoped(sc, move || call(s, id, inp_ref)).map(|h| h.join().unwrap_or(0)).unwrap_or(0)
+            });
+            ctx.end();
+            if d != seq[id] {
+                st.violation(ctx.viol(name, i, "stack-size-dependent-result", None, format!("{} on a 128 KiB stack returns a result different from the sequential one", CALL_NAMES[id]), &[]));
+            } else {
+                st.outcome(name, "same-on-small-stack");
+            }
+        }
+        let e = st.eng(name);
+        e.bound = "23 calls, each on a fresh thread with a 128 KiB stack (the unchanged release build needs less than 96 KiB; a stack overflow aborts the process and is reported as such)".into();
+        e.exhaustive = true;
+    }
+
     // (3b) argspace: the same argument bytes at every address alignment (a result may depend on the bytes of an
     // argument, not on where the caller keeps them)
     if timing { eprintln!("T{} {:.1}s before argspace", ctx.thread, t_start.elapsed().as_secs_f64()); }
@@ -1123,7 +1162,7 @@ pub fn run_c14(ctx: &Ctx, st: &mut Local) {
         e.states += 1;
         e.transitions += 1;
         e.nontrivial += 1;
-        e.bound = format!("all {} worker threads start each of the 22 calls simultaneously (barrier), {} rounds, alternating private and identical inputs, compared with the sequential digests (free-running: a sample of interleavings, labelled as such)", ctx.nthreads, rounds);
+        e.bound = format!("all {} worker threads start each of the 23 calls simultaneously (barrier), {} rounds, alternating private and identical inputs, compared with the sequential digests (free-running: a sample of interleavings, labelled as such)", ctx.nthreads, rounds);
         e.exhaustive = true;
         if bad > 0 {
             st.violation(ctx.viol(name, ctx.thread as u64, "concurrent-result-differs", None, format!("{} concurrent calls returned a result different from the sequential one", bad), &[]));
